@@ -38,6 +38,16 @@ def _loops_over(w, fi, iter_text):
     return out
 
 
+def _other_iteration(f):
+    """the function iterates in a form the loop rules do not read: a while loop, iter() / next(), a comprehension over the inputs"""
+    for n in ast.walk(f.node):
+        if isinstance(n, ast.While):
+            return True
+        if isinstance(n, ast.Call) and isinstance(n.func, ast.Name) and n.func.id in ("iter", "next", "map", "filter"):
+            return True
+    return False
+
+
 # ------------------------------------------------------------------ C20.1
 def _per_coin_limits(ctx):
     """the limits of the validity rules are class attributes that other coins override (Groestlcoin's MAX_MONEY): a check that
@@ -118,6 +128,10 @@ def c20_1(ctx):
     fr = sym.exits_formula(w, _is_raise_vfe)
     s, n = sym.decisive_set(fr, U, E) if fr is not False else (E, 0)
     want = iv(2, 100).complement()
+    if s == E:
+        unread = [o for e in w.exits for o in (gi.f_opaques(e.cond) if e.cond not in (True, False) else []) if isinstance(o, str) and "len(self.txs_in[0].script)" in o]
+        if unread:
+            raise Undecided("Tx._check_txs_in tests the coinbase script length as `%s`, a form this rule does not read" % unread[0][:80])
     ctx.check(s == want, "coinbase-script-length", ctx.where(f), "Tx._check_txs_in: coinbase script lengths rejected are %s, property requires exactly %s" % (s.fmt(), want.fmt()),
               sample={"subject": "len(self.txs_in[0].script)", "rejected": s.fmt(), "expected": want.fmt()})
     cb = [e for e in w.exits if _is_raise_vfe(e) and gi.involves_subject(e.cond)]
@@ -151,6 +165,8 @@ def c20_2(ctx):
     w = sym.walk(ctx, f)
     loops = _loops_over(w, f, "self.txs_in")
     if not loops:
+        if _other_iteration(f):
+            raise Undecided("Tx._check_txs_in walks the inputs with a while loop / iter() / next(); this rule reads `for <input> in self.txs_in` only")
         ctx.bad("dup-loop", ctx.where(f), "Tx._check_txs_in: no loop over self.txs_in that could detect a reused outpoint")
         return
     found = False
@@ -195,6 +211,11 @@ def c20_2(ctx):
                     allowed = {o for o in ops if (" in %s" % c) in o or "is_coinbase" in o or "previous_hash" in o}
                     ctx.check(ops <= allowed, "dup-insert-unconditional", ctx.where(f, e.node), "Tx._check_txs_in: insertion into %s is conditional on %s; some outpoints are never recorded" % (c, sorted(ops - allowed)))
     if not found:
+        if not any_use:
+            # read on the syntax tree as a last resort: a membership test or a container being filled anywhere in the function
+            # (through an alias of the bound method, a helper closure) means the idiom is there in a form the path analysis lost
+            any_use = any((isinstance(n, ast.Compare) and any(isinstance(o, (ast.In, ast.NotIn)) for o in n.ops)) or (isinstance(n, ast.Attribute) and n.attr in ("add", "setdefault"))
+                          for n in ast.walk(f.node))
         if any_use:
             raise Undecided("Tx._check_txs_in: a container is used inside the loop over the inputs but not in the `tested and filled` form this rule reads")
         ctx.bad("dup-structure", ctx.where(f), "Tx._check_txs_in: no container is both tested and filled with the outpoint of every input")
@@ -230,6 +251,8 @@ def c20_3(ctx):
     loops_in = _loops_over(w, f, "self.txs_in")
     # a rejection inside the loop over the inputs that is reached only when the input's outpoint tested as null
     hits = [e for e in w.exits if _is_raise_vfe(e) and e.node is not None and any(any(x is e.node for x in ast.walk(lp)) for lp in loops_in) and any(_is_null_atom(o) for o in _implied(e))]
+    if not hits and not loops_in and _other_iteration(f):
+        raise Undecided("Tx._check_txs_in walks the inputs with a while loop / iter() / next(); this rule reads `for <input> in self.txs_in` only")
     if not hits:
         ctx.bad("null-prevout-rule", ctx.where(f), "Tx._check_txs_in: no `prevout is null` rejection found for non-coinbase transactions")
     for e in hits:
@@ -263,9 +286,12 @@ def c20_6(ctx):
     cb = ("op", "truthy(self.is_coinbase())")
     zero = [e for e in w.exits if e.kind == "return" and e.value is not None and df.const_int(e.value) == 0]
     deleg = [e for e in w.exits if e.kind == "return" and e.value is not None and ".bad_solution_count(*args, **kwargs)" in norm(e.value)]
-    ctx.check(len(zero) == 1 and gi.f_equiv(zero[0].cond, cb), "coinbase-exempt", ctx.where(f), "Tx.bad_solution_count does not return 0 exactly for coinbase transactions",
+    z = gi.f_or(*[e.cond for e in zero]) if zero else False
+    ctx.check(z is not False and sym.entails(cb, z), "coinbase-exempt", ctx.where(f), "Tx.bad_solution_count does not return 0 for every coinbase transaction",
               sample={"exits": [(e.kind, norm(e.value) if e.value is not None else None, _fmt(e.cond)) for e in w.exits]})
-    ctx.check(len(deleg) == 1 and gi.f_equiv(deleg[0].cond, gi.f_not(cb)), "non-coinbase-delegates", ctx.where(f), "Tx.bad_solution_count does not delegate to the generic count for non-coinbase transactions")
+    ctx.check(bool(deleg) and z is not True and all(sym.entails(e.cond, gi.f_not(cb)) for e in deleg), "non-coinbase-delegates", ctx.where(f), "Tx.bad_solution_count does not delegate to the generic count for non-coinbase transactions")
+    if z not in (True, False) and not gi.f_equiv(z, cb) and sym.entails(cb, z):
+        ctx.undecided("zero-only-for-coinbase", ctx.where(f), "Tx.bad_solution_count also returns 0 when `%s`; whether the generic count is 0 there is not read here" % _fmt(z)[:100])
     ctx.func("pycoin/coins/Tx.py", "Tx.bad_solution_count")
     ctx.ok("base-exists")
 
